@@ -152,7 +152,8 @@ def gen_set_case(r, i):
     if imports and r.random() < .45:                 # boundary stream: width at a statement's length -1/0/+1/+2
         ls = one_line_len(imports, P)
         P["width"] = max(1, r.choice(ls) + r.choice([-2, -1, 0, 1, 2]))
-    return {"kind": "set", "i": i, "imports": imports, "shadow": shadow, "params": P}
+    how, P = gen_how(r, P)
+    return {"kind": "set", "i": i, "imports": imports, "shadow": shadow, "params": P, "how": how}
 
 
 SPLIT_ALPHA = "ab.*_"
@@ -184,7 +185,13 @@ def gen_algebra_case(r, i):
         return out
     a = some(6)
     b = some(3) + [x for x in a if r.random() < .3]
-    if r.random() < .4 and a:
+    for f, x in list(a):
+        # the same (module, member) under another local name: removing one must not remove the other
+        if x != "*" and "." in f and r.random() < .35:
+            mem = f.split(".")[-1]
+            variant = [f, mem] if x != mem else [f, ident(r, 4)]
+            (b if r.random() < .6 else a).append(variant)
+    if r.random() < .3 and a:
         m = r.choice(a)[0].lstrip(".").split(".")[0]
         b.append([m + ".*", "*"])
     return {"kind": "algebra", "i": i, "a": a, "b": b, "name": r.choice([x[1] for x in a + b] + ["q"])}
@@ -464,13 +471,74 @@ def run_cli(script, argv, cwd):
 # ---------------------------------------------------------------------------------------------
 # implementation side (worker process, pyflyby from REPO)
 
-def _params(P):
+PARAM_KEYS = {"width": "max_line_length", "indent": "indent", "hanging": "hanging_indent", "align": "align_imports",
+              "from_spaces": "from_spaces", "separate": "separate_from_imports", "align_future": "align_future"}
+BASE_FIELDS = ("width", "indent", "hanging")
+PARAM_DEFAULTS = {"width": None, "indent": 4, "hanging": "never", "align": {"bool": True}, "from_spaces": 1,
+                  "separate": True, "align_future": False}
+
+
+def _kw(d):
+    out = {}
+    for k, v in d.items():
+        if k == "align":
+            v = v["bool"] if "bool" in v else (v["col"] if "col" in v else tuple(v["cols"]))
+        out[PARAM_KEYS[k]] = v
+    return out
+
+
+def _params(P, how=None):
+    """the params object handed to pretty_print.  how = None: ImportFormatParams(**all settings);  otherwise HOW the same
+    merged settings are passed: {"mode": ..., "parts": [[cls, settings], ...], "kw": settings}"""
+    from pyflyby._format import FormatParams
     from pyflyby._importstmt import ImportFormatParams
-    al = P["align"]
-    align = al["bool"] if "bool" in al else (al["col"] if "col" in al else tuple(al["cols"]))
-    return ImportFormatParams(max_line_length=P["width"], indent=P["indent"], hanging_indent=P["hanging"],
-                              align_imports=align, from_spaces=P["from_spaces"],
-                              separate_from_imports=P["separate"], align_future=P["align_future"])
+    if not how or how["mode"] == "kw":
+        return ImportFormatParams(**_kw(P))
+    objs = []
+    for cls, d in how["parts"]:
+        if cls == "none":
+            objs.append(None)
+        else:
+            objs.append((FormatParams if cls == "base" else ImportFormatParams)(**_kw(d)))
+    if how["mode"] == "base":
+        return objs[0]                                   # a bare FormatParams instance goes straight to pretty_print
+    return ImportFormatParams(*objs, **_kw(how["kw"]))
+
+
+def merged_settings(how):
+    eff = dict(PARAM_DEFAULTS)
+    for cls, d in how["parts"]:
+        if cls != "none":
+            eff.update(d)
+    eff.update(how["kw"])
+    return eff
+
+
+def gen_how(r, P):
+    """returns (how, effective P): the same settings passed in different ways; later objects / keywords override"""
+    k = r.random()
+    if k < .4:
+        return {"mode": "kw", "parts": [], "kw": dict(P)}, P
+    other = rand_params(r)
+    if k < .55:                                          # FormatParams base instance, directly
+        how = {"mode": "base", "parts": [["base", {f: P[f] for f in BASE_FIELDS}]], "kw": {}}
+        return how, merged_settings(how)
+    if k < .7:                                           # ImportFormatParams(FormatParams(...), import-specific keywords)
+        how = {"mode": "wrap", "parts": [["base", {f: P[f] for f in BASE_FIELDS}]],
+               "kw": {f: P[f] for f in P if f not in BASE_FIELDS and r.random() < .8}}
+        return how, merged_settings(how)
+    if k < .85:                                          # ImportFormatParams(other_params, **overrides)
+        first = {f: (P[f] if r.random() < .5 else other[f]) for f in P if r.random() < .8}
+        how = {"mode": "override", "parts": [["import", first]], "kw": {f: P[f] for f in P if first.get(f, None) != P[f] or r.random() < .3}}
+        return how, merged_settings(how)
+    # several objects merged positionally (None allowed), then keywords
+    p1 = {f: other[f] for f in BASE_FIELDS if r.random() < .7}
+    p2 = {f: (P[f] if r.random() < .6 else other[f]) for f in P if r.random() < .6}
+    p3 = {f: P[f] for f in P if r.random() < .5}
+    parts = [["base", p1], ["none", {}], ["import", p2], ["import", p3]]
+    r.shuffle(parts)
+    how = {"mode": "positional", "parts": parts, "kw": {f: P[f] for f in P if r.random() < .3}}
+    return how, merged_settings(how)
 
 
 def _pairs(imps):
@@ -498,7 +566,7 @@ def impl_case(c):
     from pyflyby._format import pyfill, FormatParams
     k = c["kind"]
     if k == "set":
-        P = _params(c["params"])
+        P = _params(c["params"], c.get("how"))
         s = ImportSet([Import.from_parts(f, a) for f, a in c["imports"]], ignore_shadowed=c["shadow"])
         res = {"set": sorted(_pairs(s._importset)), "imports": _pairs(s.imports),
                "conflicts": sorted(s.conflicting_imports), "print": _printed(lambda: s.pretty_print(P))}
@@ -885,6 +953,18 @@ def compare(ctx, cases, impl, index, model):
                     ctx.disagreement("ImportSet.%s" % tag, c, im[tag], mv[tag])
             nontriv = im["without"] != sorted(c["a"])
             ctx.bump("algebra")
+            # oracle (plain rule): without_imports removes exactly the listed imports (same path AND same local name),
+            # plus - when a star import is listed - imports under that module
+            aset = sorted(set(map(tuple, c["a"])))
+            bset = set(map(tuple, c["b"]))
+            got = set(map(tuple, im["without"]))
+            if not got <= set(aset):
+                ctx.violation("without_imports_exact", c, "without_imports invented %r" % sorted(got - set(aset)))
+            if not any(x == "*" for _, x in bset):
+                want = [list(t) for t in aset if t not in bset]
+                if im["without"] != want:
+                    ctx.violation("without_imports_exact", c, "without_imports gives %r, expected %r (an import is removed only "
+                                  "when path and local name both match)" % (im["without"], want))
         elif k == "soup":
             sts = ast_statements(c["text"])
             want = None if sts is None else {"stmts": sts, "imports": pairs_of_statements(sts)}
